@@ -7,6 +7,7 @@ package lib
 //@ import anypb "google.golang.org/protobuf/types/known/anypb"
 //@ import net "net"
 //@ import sync "sync"
+//@ import io "io"
 //@ import log "github.com/refraction-networking/conjure/pkg/station/log"
 
 // Interface contracts of lib.Transport as its callers use them (frames only).
@@ -132,16 +133,22 @@ package lib
 // "exactly the bytes it read, in order, without loss, duplication or reordering up to the point where one side fails,
 // including bytes that were returned together with an end-of-stream or error indication".
 //@ func halfPipe(src net.Conn, dst net.Conn, wg *sync.WaitGroup, logger *log.Logger, tag string, stats *tunnelStats)
+// facts about error constants (their texts are literals)
+//@   requires addrFree(errConnReset) && addrFree(errConnRefused) && addrFree(errConnAborted) && addrFree(errUnreachable) && addrFree(errConnTimeout) && addrFree(errNetOp) && addrFree(io.ErrShortWrite)
 //@   requires src != nil && dst != nil && wg != nil && logger != nil && stats != nil && stats.proxyStats != nil
 // ghost normalisation (digests and flags are relative to the start of the call; not an obligation of callers)
 //@   requires @SAFETY: txh(dst) == rxh(src) && !wfail(dst) && !closed(dst) && !spawned_halfPipe_2(src)
 //@   let counted := ite(isUpload, stats.BytesUp, stats.BytesDown)
+//@   requires addrFreeStr(stats.ClientConnErr) && addrFreeStr(stats.CovertConnErr)
+// C17: whatever errors the two connections return, the error texts kept for the tunnel summary are address-free
+//@   ensures @C17: addrFreeStr(stats.ClientConnErr) && addrFreeStr(stats.CovertConnErr)
 //@   ensures @C05: !wfail(dst) ==> txh(dst) == rxh(src)
 //@   ensures @C05: closed(dst) && spawned_halfPipe_2(src)
 //@   ensures @C05: wgdone(wg) == old(wgdone(wg)) + 1
 //@   ensures @C05: stats.BytesUp + stats.BytesDown == old(stats.BytesUp + stats.BytesDown) + nwritten(dst) - old(nwritten(dst))
 //@ loop 1:
 //@   invariant @C05: txh(dst) == rxh(src) && !wfail(dst)
+//@   invariant @C17: addrFreeStr(stats.ClientConnErr) && addrFreeStr(stats.CovertConnErr)
 //@   invariant !closed(dst) && !spawned_halfPipe_2(src) && wgdone(wg) == old(wgdone(wg)) && stats.proxyStats != nil && len(buf) == 32768 && fresh(buf)
 //@   invariant @C05: stats.BytesUp + stats.BytesDown == old(stats.BytesUp + stats.BytesDown) + nwritten(dst) - old(nwritten(dst))
 //@   modifies elems(buf), stats.BytesUp, stats.BytesDown, stats.ClientConnErr, stats.CovertConnErr, obj(stats.proxyStats), obj(&statInstance), rxh(src), txh(dst), nread(src), nwritten(dst), nwrites(dst), wfail(dst), now()
